@@ -43,7 +43,7 @@ PROPS = {
                 "order (salience over the i32 range incl. negatives and extremes, no-loop / lock-on-active with and without `true`, agenda-group, activation-group incl. names such as \"no-loop\" and \"salience 7\", "
                 "date-effective / date-expires); condition trees to depth 5 over the typed core of C01 with redundant parentheses; literals of every type incl. strings with GRL metacharacters (; && || { } ( ) = , // then "
                 "when rule salience, quotes of the other kind, non-ASCII) in a third of the files, and strings with runs of blanks, leading / trailing blanks, tabs and non-ASCII spaces everywhere; action forms: assignment (literal, arithmetic, concatenation, field copy, array), +=, Log, retract($X), ActivateAgendaGroup, "
-                "ScheduleRule, CompleteWorkflow, custom function calls and `$Object.method(...)` calls with 0..4 arguments (half of them with string arguments made of apostrophes and commas); layout: blanks, tabs, line breaks between any two tokens, comment lines and trailing comments anywhere (1 file in 12 with comments "
+                "ScheduleRule (rule names with commas and parentheses), CompleteWorkflow, custom function calls and `$Object.method(...)` calls with 0..4 arguments (half of them with string arguments made of apostrophes and commas); layout: blanks, tabs, line breaks between any two tokens, comment lines and trailing comments anywhere (1 file in 12 with comments "
                 "containing a closing brace or a rule header). Second stream: bare when clauses (depth to 6, metacharacter strings in half of them, arbitrary blanks and redundant parentheses) through the hook "
                 "verif_parse_when_clause, compared with the Coq model of the condition-tree parser AND with the written tree. Observed per rule: name, salience, flags, groups, dates, condition tree, action list. "
                 "non-trivial = at least one rule",
@@ -52,7 +52,7 @@ PROPS = {
                 "parentheses protect (a text that may split at its own top level does not split once parenthesised); a top-level && / || between two non-splitting texts separates exactly there into exactly the two trimmed "
                 "texts; such texts compose. The model of parse_when_clause / split_logical_operator / the single-comparison pattern is compared with the code on every generated clause; the Coq-defined expectation exp_rule "
                 "(what was written, independent of layout by construction) is compared with the parser's output on every generated file.",
-        "level_note": "Partial: the regular expressions (rexile) that carve a file into rules and a rule into header / when / then are not modelled - their result is observed and compared with exp_rule; Known findings (monitor classes 2, 3, 4, 5): a closing brace in a string literal, "
+        "level_note": "Partial: the regular expressions (rexile) that carve a file into rules and a rule into header / when / then are not modelled - their result is observed and compared with exp_rule; Known findings (monitor classes 2, 3, 4, 5, 6): a closing brace in a string literal (also of a description), an opening brace in a description string (class 6), "
                 "blank-then-blank in a when-clause string, a brace or rule header in a comment, and the `$Obj.method(args)` action form coming back as the custom action `method(args)` (the method-call pattern never "
                 "matches; class 5 only when the observation is exactly the expectation with that substitution). Trusted: Coq kernel; model of grl.rs after fixes 804c5fd ee6c06e b8f8cd8 f796657 389caa3 7515c16 fbc30e7 751cd5b 4ea3eb2 601e5f7 94337f6; hook 26bcb2e; harness; extraction. Axioms: none.",
         "trusted_base": ["rexile 0.5.8 regular expressions of grl.rs: not modelled"],
@@ -68,11 +68,14 @@ PROPS = {
                 "max_depth in {0,1,2,3,6,10} (at most 4 / 3 for non-deterministic sets of more than 3 / 5 rules: the search is exponential in the bound on cyclic sets); strategies depth-first (3/5), breadth-first, iterative; max_solutions 1 and 3; plus a structured family (a third as many cases): a goal needing a conjunction of sub-goals, each with a chain of rules down to a base fact, decoy rules listed first that reach a shared "
                 "sub-goal through a longer path, max_depth = exact height needed -2..+1. Observed per query: provable, the caller's facts before and after. non-trivial = provable",
         "level_text": "Theorems (Coq, every rule set / goal / depth / facts): whenever the depth-first search with execution - at the root or at any sub-goal - reports a goal proven, the goal comparison holds in the facts "
-                "it hands back; the same for iterative deepening; and for Horn-style sets every result stays within EVERY closed set of atoms that covers the facts asked on - a proven goal is satisfied by an atom of the forward closure. The model of the search (candidate selection, recursive proof of unmet conditions, re-execution, rollback of failed candidates) predicts the verdict of "
+                "it hands back; the same for iterative deepening; and for Horn-style sets every result stays within EVERY closed set of atoms that covers the facts asked on - a proven goal is satisfied by an atom of the forward closure. BOUNDED COMPLETENESS is a theorem too (Proofs/BackwardCompleteProofs.v, C09_bounded_completeness_partial): "
+                "for every Horn instance of any size - conjunctive conditions of positive comparisons against boolean / string / null literals, every field single-valued over facts and conclusions - a goal that holds at level h <= max_depth of the bounded "
+                "forward derivation is reported provable by the depth-first search, whatever decoys, dead ends, shared sub-goals and cycles there are (induction on the level; failed candidates hand the facts on unchanged, successful sub-proofs only extend them; the "
+                "recursion fuel of the model provably suffices). The model of the search (candidate selection, recursive proof of unmet conditions, re-execution, rollback of failed candidates) predicts the verdict of "
                 "every single depth-first and iterative query (and of whole histories on deterministic rule sets) and is compared with the code; the Coq-defined monitor checks on the implementation's observations, for all three strategies: provable -> "
                 "goal true in the facts handed back AND in the many-valued forward closure of the rules on the facts asked on; (depth-first, conjunctive, monotone instances) goal at level max_depth of the bounded "
                 "forward derivation -> provable; verdict = verdict of a fresh search on the same facts.",
-        "level_note": "Partial: bounded completeness is monitored on every applicable case but not yet a theorem; breadth-first search depends on hash-set iteration order and is monitored only. Trusted: Coq kernel; model of "
+        "level_note": "Partial: the completeness theorem does not cover integer / float literals in rule conditions (they are re-parsed through f64 by the code; monitored only); breadth-first search depends on hash-set iteration order and is monitored only. Trusted: Coq kernel; model of "
                 "search.rs / rule_executor.rs / condition_evaluator.rs / conclusion_index.rs after fixes 692df85 047f79f ab15463 dfacdc7 fe5aaf4 f980bee (Horn core: field-op-literal conditions, literal assignments, flat fact "
                 "names; no negated goals, TMS/RETE attachment, functions or multifield conditions); harness; extraction. Axioms: none.",
         "trusted_base": ["std HashSet iteration order of the root candidate set: the model predicts verdicts only where they cannot depend on it"],
@@ -168,7 +171,7 @@ PROPS = {
         "rule": "agenda: random histories of 3..14 ops (add_activation with saliences incl. ties and i32 extremes, 4 rule names, 2 activation groups, 3 agenda groups, no-loop / lock-on-active / auto-focus flags; "
                 "get_next_activation usually followed by mark_rule_fired; set_focus; reset) on the real AdvancedAgenda with strictly increasing creation instants; fire_all: 240 (quick) / 3000 (thorough) rule sets of 1..5 "
                 "constant-condition rules with and without no-loop, priorities incl. i32::MIN/MAX, on ReteUlEngine, TypedReteUlEngine and IncrementalEngine, each run in a child process under a 30 s watchdog; "
-                "non-trivial = at least one Next (agenda) / any loop case",
+                "non-trivial = at least one Next (agenda) / any loop case Engine code 3 of the fire_all stream is the incremental engine with every action issuing ActivateAgendaGroup (the focus moves to an empty group and falls back): the firings must be those of engine 2 and the call must return (10 s watchdog per case). tools/consts.py reads the three iteration bounds from the source and refuses a loop whose counter is assigned more than once.",
         "level_text": "Proved for every agenda state with distinct creation times: get_next_activation returns an eligible activation (no-loop, activation-group and lock filters) that is greatest for (salience desc, "
                 "earlier created) in its group, the pop loop equals 'best eligible + drop everything above', and every history of the five operations is observed exactly as the specification says; proved for every rule set: "
                 "each of the three fire_all loops ends within its iteration bound, the bounds being read from the current source (a missing bound makes the theorem fail). The harness confirms model = code per op and per run, with a hang watchdog.",
@@ -305,7 +308,7 @@ PROPS = {
         "rule": "exhaustive 23x23 value-pair matrix (ints, floats incl. 0.0/-0.0/NaN/-NaN/inf/0.1, numeric-looking and keyword-looking strings, booleans, arrays incl. nested -0.0/NaN, null) for alpha "
                 "(index created before and after insert, dropped), beta (add a, lookup b) and memo (node constant a/b on fact sets a/b); random histories of 3..10 ops for alpha (insert/create/drop/filter on 2 fields), "
                 "beta (add/remove/lookup), memo (2..10 evaluations over look-alike fact sets; for every ordered pair of pool values the same node on {f1:a,f2:b} and {f1:b,f2:a}) and the conclusion index (add enabled/disabled rules with 0..2 Set actions, remove, find with 9 operator spellings); "
-                "non-trivial = label not 'trivial'",
+                "non-trivial = label not 'trivial' Conclusion-index goals: field op literal with literals that contain operator characters ('a==b', \"<\", \">= 1\").",
         "level_text": "Proved: for EVERY history of insertions, index creations, drops and filters the alpha-memory answers are those of the index-free scan (all value shapes, NaN, signed zeros, nested arrays; by an invariant "
                 "over all indexes: every bucket, filtered, is the scan, with index keys an equivalence that contains ==); Debug-equal values are interchangeable for ==; a memoised evaluation equals direct evaluation after any "
                 "sequence of earlier evaluations. Beta lookup = live facts with that key and conclusion-index completeness are the Coq-defined executable specifications in Index.ok evaluated on the real structures "
